@@ -80,7 +80,7 @@ func treeFiles(dir string) map[string]string {
 func s6set(st *HStore, key string, body []byte, flag uint32) error {
 	ki := NewKeyInfoFromBytes([]byte(key), 0, false)
 	p := &Payload{Meta: Meta{Flag: flag, TS: 1}}
-	p.Body = append([]byte{}, body...)
+	allocBody(p, body)
 	cmem.DBRL.SetData.AddSizeAndCount(p.CArray.Cap)
 	return st.Set(ki, p)
 }
